@@ -563,6 +563,10 @@ func (s *runtimeState) resolvePull(endpoint string) (string, bool) {
 func (s *runtimeState) authorizePull(r *http.Request) bool {
 	s.mu.RLock()
 	defer s.mu.RUnlock()
+	return s.authorizePullLocked(r)
+}
+
+func (s *runtimeState) authorizePullLocked(r *http.Request) bool {
 	auth := s.pullAuthorize
 	if r != nil && len(s.pullByRoute) > 0 {
 		if endpoint := pullEndpointFromRequest(r); endpoint != "" {
@@ -579,9 +583,23 @@ func (s *runtimeState) authorizePull(r *http.Request) bool {
 	return auth(r)
 }
 
+// planPull authorizes a pull request and resolves its endpoint under one read
+// lock: a reload cannot switch the endpoint mapping between the two.
+func (s *runtimeState) planPull(r *http.Request, endpoint string) (route string, authorized bool, found bool) {
+	s.mu.RLock()
+	defer s.mu.RUnlock()
+	authorized = s.authorizePullLocked(r)
+	route, found = s.pathToRoute[endpoint]
+	return route, authorized, found
+}
+
 func (s *runtimeState) authorizeWorker(ctx context.Context, endpoint string) bool {
 	s.mu.RLock()
 	defer s.mu.RUnlock()
+	return s.authorizeWorkerLocked(ctx, endpoint)
+}
+
+func (s *runtimeState) authorizeWorkerLocked(ctx context.Context, endpoint string) bool {
 	auth := s.workerAuthorize
 	if len(s.workerByRoute) > 0 {
 		if route, ok := s.pathToRoute[strings.TrimSpace(endpoint)]; ok {
@@ -594,6 +612,15 @@ func (s *runtimeState) authorizeWorker(ctx context.Context, endpoint string) boo
 		return true
 	}
 	return auth(ctx, endpoint)
+}
+
+// planWorker is planPull for the worker gRPC transport.
+func (s *runtimeState) planWorker(ctx context.Context, endpoint string) (route string, authorized bool, found bool) {
+	s.mu.RLock()
+	defer s.mu.RUnlock()
+	authorized = s.authorizeWorkerLocked(ctx, endpoint)
+	route, found = s.pathToRoute[endpoint]
+	return route, authorized, found
 }
 
 func (s *runtimeState) authorizeAdmin(r *http.Request) bool {
@@ -1865,6 +1892,7 @@ func startServers(
 	pullHandler := pullapi.NewServer(store)
 	pullHandler.ResolveRoute = state.resolvePull
 	pullHandler.Authorize = state.authorizePull
+	pullHandler.PlanRequest = state.planPull
 	if compiled.PullAPI.MaxBatch > 0 {
 		pullHandler.MaxBatch = compiled.PullAPI.MaxBatch
 	}
@@ -1890,6 +1918,7 @@ func startServers(
 	workerHandler := workerapi.NewServer(pullHandler)
 	workerHandler.ResolveRoute = state.resolvePull
 	workerHandler.Authorize = state.authorizeWorker
+	workerHandler.PlanRequest = state.planWorker
 	if compiled.PullAPI.MaxBatch > 0 {
 		workerHandler.MaxLeaseBatch = compiled.PullAPI.MaxBatch
 	}
